@@ -174,6 +174,143 @@ def concrete(seed):
     return dict(evaluations=0, cases=[], failure=dict(what="concrete harness crashed: " + (p.stderr or p.stdout)[-400:], crash=True))
 
 
+# ------------------------------------------------------------------------------------------------------------------
+# SolveExp2 / SolveExp1: the stepping realises y+ = E y + P w_i + Q w_(i+1) for y = [v; d], w = M^-1 F, with getEPQ under contract (C07)
+def exp_case(args):
+    t0 = time.time()
+    try:
+        return _exp_case(args, t0)
+    except Exception as ex:
+        import traceback
+        tb = traceback.extract_tb(ex.__traceback__)
+        last = tb[-1]
+        inrepo = "/pyyeti/" in last.filename and "/verif/" not in last.filename
+        st = "failed" if (inrepo and (last.line or "").strip().startswith("raise")) else "undecided"
+        return [dict(name="SolveExp%s::symbolic run completes" % (args,), status=st, seconds=time.time() - t0, detail={"reason": "%r at %s:%s" % (ex, last.filename, last.lineno)})]
+
+
+def _exp_case(args, t0):
+    from types import SimpleNamespace
+    from vc import symla, npx
+    cls, order, mform, rf = args
+    SE2, SE1 = "pyyeti/ode/solveexp2.py", "pyyeti/ode/solveexp1.py"
+    mods = [alg.load_module(report.REPO, p_) for p_ in (SE2, SE1, BASE)]
+    se2, se1, base = mods
+    n, nt = 2, 3
+    h = sp.Symbol("h", positive=True)
+
+    def iszero(e):
+        e = sp.expand(e)
+        return e == 0 or sp.expand(sp.numer(sp.together(e))) == 0
+    calls = []
+    if cls == "SolveExp1":
+        A = sp.Matrix(n, n, lambda i, j: sp.Symbol("A%d%d" % (i, j), real=True))
+        E = sp.Matrix(n, n, lambda i, j: sp.Symbol("E%d%d" % (i, j), real=True))
+        P = sp.Matrix(n, n, lambda i, j: sp.Symbol("P%d%d" % (i, j), real=True))
+        Q = sp.Matrix(n, n, lambda i, j: sp.Symbol("Q%d%d" % (i, j), real=True))
+
+        def getEPQ(Ain, hh, order_=1, B=None, half=False):
+            calls.append(dict(A=symla.tomat(Ain), h=alg.expr_of(hh), order=order_, half=half))
+            return symla.toarr(E), symla.toarr(P), (symla.toarr(Q) if order_ == 1 else 0.0)
+        F = sp.Matrix(n, nt, lambda i, j: sp.Symbol("F%d_%d" % (i, j), real=True))
+        d0 = sp.Matrix(n, 1, lambda i, j: sp.Symbol("d0_%d" % i, real=True))
+        reg = alg.HashRegime("se1")
+        extra = {se1.__name__: {"np": npx.NPX(), "expmint": SimpleNamespace(getEPQ=getEPQ)}}
+        with alg.Multi([se1], reg, extra):
+            ts = se1.SolveExp1(symla.toarr(A), alg.S(h), order=order)
+            sol = ts.tsolve(symla.toarr(F), d0=alg.sym_array(list(d0)))
+        bad = []
+        D = sp.Matrix(n, nt, lambda i, j: alg.expr_of(sol.d[i, j]))
+        V = sp.Matrix(n, nt, lambda i, j: alg.expr_of(sol.v[i, j]))
+        for i in range(n):
+            if not iszero(D[i, 0] - d0[i]):
+                bad.append(("d0", i))
+        for j in range(1, nt):
+            want = E * D[:, j - 1] + P * F[:, j - 1] + (Q * F[:, j] if order == 1 else sp.zeros(n, 1))
+            bad += [("step", j, i) for i in range(n) if not iszero(D[i, j] - want[i])]
+        for j in range(nt):
+            w = F[:, j] + A * D[:, j]
+            bad += [("v = f + A d", j, i) for i in range(n) if not iszero(V[i, j] - w[i])]
+        ok = len(calls) == 1 and calls[0]["A"] == A and calls[0]["h"] == h and calls[0]["order"] == order and not calls[0]["half"]
+        return [dict(name="SolveExp1[order=%d]::d[:, j] == E d[:, j-1] + P f[:, j-1]%s, d[:, 0] == d0, v == f + A d; getEPQ(A, h, order) called once" % (order, " + Q f[:, j]" if order else ""),
+                     status="failed" if (bad or not ok) else "proved", seconds=time.time() - t0, detail={"bad": bad[:6], "call_ok": ok})]
+    # SolveExp2
+    k_ = n
+    ntot = n + (1 if rf else 0)
+    full = mform == "matrix"
+    if full:
+        M = sp.Matrix(k_, k_, lambda i, j: sp.Symbol("m%d%d" % (min(i, j), max(i, j)), real=True))
+        Bm = sp.Matrix(k_, k_, lambda i, j: sp.Symbol("b%d%d" % (i, j), real=True))
+        Km = sp.Matrix(k_, k_, lambda i, j: sp.Symbol("k%d%d" % (min(i, j), max(i, j)), real=True))
+    else:
+        M = sp.diag(*[sp.Symbol("m%d" % i, positive=True) for i in range(k_)]) if mform != "none" else sp.eye(k_)
+        Bm = sp.Matrix(k_, k_, lambda i, j: sp.Symbol("b%d%d" % (i, j), real=True))       # full damping -> coupled solver path
+        Km = sp.diag(*[sp.Symbol("k%d" % i, positive=True) for i in range(k_)])
+    krf = sp.Symbol("krf", positive=True)
+    E = sp.Matrix(2 * k_, 2 * k_, lambda i, j: sp.Symbol("E%d%d" % (i, j), real=True))
+    P = sp.Matrix(2 * k_, k_, lambda i, j: sp.Symbol("P%d%d" % (i, j), real=True))
+    Q = sp.Matrix(2 * k_, k_, lambda i, j: sp.Symbol("Q%d%d" % (i, j), real=True))
+
+    def getEPQ(Ain, hh, order_=1, B=None, half=False):
+        calls.append(dict(A=symla.tomat(Ain), h=alg.expr_of(hh), order=order_, half=half, B=B))
+        return symla.toarr(E), symla.toarr(P), (symla.toarr(Q) if order_ == 1 else 0.0)
+
+    def ext(X, last):
+        if not rf:
+            return X
+        Y = sp.zeros(ntot, ntot)
+        Y[:k_, :k_] = X
+        Y[k_, k_] = last
+        return Y
+    F = sp.Matrix(ntot, nt, lambda i, j: sp.Symbol("F%d_%d" % (i, j), real=True))
+    d0 = [sp.Symbol("d0_%d" % i, real=True) for i in range(k_)] + ([0] if rf else [])
+    v0 = [sp.Symbol("v0_%d" % i, real=True) for i in range(k_)] + ([0] if rf else [])
+    reg = alg.HashRegime("se2")
+    extra = {mm.__name__: {"np": npx.NPX(), "la": symla} for mm in (se2, base)}
+    extra[se2.__name__]["expmint"] = SimpleNamespace(getEPQ=getEPQ)
+    with alg.Multi([se2, base], reg, extra):
+        marg = None if mform == "none" else symla.toarr(ext(M, 1))
+        ts = se2.SolveExp2(marg, symla.toarr(ext(Bm, 0)), symla.toarr(ext(Km, krf)), alg.S(h), rf=([k_] if rf else None), order=order)
+        sol = ts.tsolve(symla.toarr(F), d0=alg.sym_array(d0), v0=alg.sym_array(v0))
+    res = []
+    tag = "SolveExp2[order=%d, m=%s, %s]" % (order, mform, "with rf" if rf else "no rf")
+    Mi = M.inv()
+    Awant = sp.zeros(2 * k_, 2 * k_)
+    Awant[:k_, :k_] = -Mi * Bm
+    Awant[:k_, k_:] = -Mi * Km
+    Awant[k_:, :k_] = sp.eye(k_)
+    okA = len(calls) == 1 and all(iszero(x) for x in (calls[0]["A"] - Awant)) and calls[0]["h"] == h and calls[0]["order"] == order and calls[0]["half"] and calls[0]["B"] is None
+    res.append(dict(name=tag + "::getEPQ is called once on the state matrix [[-M^-1 B, -M^-1 K], [I, 0]] (state [v; d]) with (h, order, half=True)", status="proved" if okA else "failed",
+                    seconds=time.time() - t0, detail={"calls": len(calls)}))
+    D = sp.Matrix(ntot, nt, lambda i, j: alg.expr_of(sol.d[i, j]))
+    V = sp.Matrix(ntot, nt, lambda i, j: alg.expr_of(sol.v[i, j]))
+    Ac = sp.Matrix(ntot, nt, lambda i, j: alg.expr_of(sol.a[i, j]))
+    bad = []
+    for i in range(k_):
+        if not iszero(D[i, 0] - d0[i]) or not iszero(V[i, 0] - v0[i]):
+            bad.append(("initial conditions", i))
+    for j in range(1, nt):
+        y0 = sp.Matrix.vstack(V[:k_, j - 1], D[:k_, j - 1])
+        w0, w1 = Mi * F[:k_, j - 1], Mi * F[:k_, j]
+        y1 = E * y0 + P * w0 + (Q * w1 if order == 1 else sp.zeros(2 * k_, 1))
+        for i in range(k_):
+            if not iszero(V[i, j] - y1[i]):
+                bad.append(("v step", j, i))
+            if not iszero(D[i, j] - y1[k_ + i]):
+                bad.append(("d step", j, i))
+    res.append(dict(name=tag + "::[v; d](j) == E [v; d](j-1) + P M^-1 F(j-1)%s for every step (nt=3), initial conditions kept" % (" + Q M^-1 F(j)" if order else ""),
+                    status="failed" if bad else "proved", seconds=time.time() - t0, detail={"bad": bad[:6]}))
+    bad = []
+    for j in range(nt):
+        r = M * Ac[:k_, j] + Bm * V[:k_, j] + Km * D[:k_, j] - F[:k_, j]
+        bad += [("eom", j, i) for i in range(k_) if not iszero(r[i])]
+        if rf:
+            if not iszero(D[k_, j] - F[k_, j] / krf) or V[k_, j] != 0 or Ac[k_, j] != 0:
+                bad.append(("rf row", j))
+    res.append(dict(name=tag + "::M a + B v + K d == F at every step; residual-flexibility row static", status="failed" if bad else "proved", seconds=time.time() - t0, detail={"bad": bad[:6]}))
+    return res
+
+
 def run(tier, seed):
     run = report.Run(PID, tier, seed)
     run.trust("sympy 1.14 normal forms + 50-digit numeric refutation", "z3/cvc5", "vc.alg symbolic shims (math, NumPy allocation)",
@@ -213,6 +350,11 @@ def run(tier, seed):
                                  "conditions, step relation with get_su_coef's coefficients, equation of motion, static rf rows",
                             scope="order x m in {vector, None, diagonal matrix} x rb given/auto x ic in {zero, d0/v0, static_ic}; symbolic values",
                             evaluations=nev, cases=len(cases), failures=len(fails), label="bounded in nt and size (never counted as proved)"))
+    ecases = [("SolveExp1", 1, None, False), ("SolveExp1", 0, None, False)] + [("SolveExp2", o, mf, rf_) for o in (1, 0) for mf, rf_ in (("matrix", False), ("vector", True), ("none", True))]
+    for lst in report.pool().map(exp_case, ecases, chunksize=1):
+        for d_ in lst:
+            run.add_verdicts([report.Verdict(d_["name"], d_["status"], "sympy-%s (rational identities)" % sp.__version__, d_["seconds"], "post", "pyyeti/ode/solveexp2.py", d_["detail"])])
+    run.assume("SolveExp1/SolveExp2: expmint.getEPQ is under contract (abstract E, P, Q; property C07); 2 dynamic equations (+1 residual flexibility), nt = 3, all values symbolic")
     conc = concrete(seed)
     run.bounded.append(dict(name="real SolveUnc / SolveExp2 (float) vs exact first-order-hold reference from scipy.linalg.expm; equation-of-motion residual",
                             scope="diagonal 8-mode systems covering every damping regime incl. the lightly-damped rigid-body cut-off band (h=1e-3, 1e-2), "
